@@ -95,6 +95,39 @@ class TimeSeriesMixedEdgeGraph(BaseTimeSeriesGraph, pywhy_nx.MixedEdgeGraph):
                     G.add_nodes_from((n, d.copy()) for n, d in self._node.items() if n[1] == 0)
         return G
 
+    def set_max_lag(self, lag: int):
+        """Set maximum-lag of the graph and of every edge-type sub-graph.
+
+        Every sub-graph adds, or removes its own nodes in time and homologous edges, so
+        edges stay within their edge type.
+
+        Parameters
+        ----------
+        lag : int
+            The maximum lag (as a positive number).
+
+        Returns
+        -------
+        self : time-series mixed-edge graph
+            The modified time-series graph with new max-lag.
+        """
+        if lag <= 0:
+            raise ValueError(
+                f"Max lag must always be greater than 0, so passed in {lag} value is invalid."
+            )
+        for graph in self.get_graphs().values():
+            graph.set_max_lag(lag)
+
+        max_lag = self.max_lag
+        if lag < max_lag:
+            for node in [node for node in self._node if node[1] < -lag]:
+                del self._node[node]
+        self.graph["max_lag"] = lag
+        if lag > max_lag:
+            for variable in self.variables:
+                self.add_node((variable, -lag))
+        return self
+
     def add_edge(self, u_of_edge: TsNode, v_of_edge: TsNode, edge_type: str = "all", **attr):
         super().add_edge(u_of_edge, v_of_edge, edge_type=edge_type, **attr)
 
